@@ -1,4 +1,5 @@
 import SaphyrVerif.Spec.BudgetSpec
+import SaphyrVerif.Lemmas.C07
 /-!
 # C07 — budget limits are enforced exactly and the usage report is accurate
 
@@ -9,11 +10,48 @@ an input that fits in memory); it is what makes the saturating `depth + 1` exact
 -/
 namespace SaphyrVerif.Props.C07
 open SaphyrVerif SaphyrVerif.Scalars SaphyrVerif.Budget SaphyrVerif.Spec
+open SaphyrVerif.Lemmas.C07
 
-/-- (T) On trees the enforcer never reports an unbalanced structure. -/
-theorem no_unbalanced_on_trees (lim : Limits) (pd : Bool) (ds : List Node) (i : Nat) :
+/-- (T, as given) On trees the enforcer never reports an unbalanced structure.
+FALSE as stated (no bound on the input): the `usize` depth counter saturates on a sequence nested `2^64`
+deep, and the last `SequenceEnd` then finds `depth == 0`.  Kept as a `Prop`; see the counterexample and the
+two corrected versions below. -/
+def no_unbalanced_on_trees_Full : Prop :=
+  ∀ (lim : Limits) (pd : Bool) (ds : List Node) (i : Nat),
+    run lim pd (flattenStream ds) ≠ .error (i, .unbalanced)
+
+/-- The counterexample (it has `2^65 + 5` events, so it cannot be checked by evaluation; it is proved):
+one document, a sequence nested `2^64` deep, with all limits at `2^70`. -/
+theorem no_unbalanced_on_trees_counterexample :
+    ∃ i, run bigLim false (flattenStream [nest (USIZE_MAX + 1)]) = .error (i, .unbalanced) :=
+  counter_unbalanced USIZE_MAX rfl
+
+theorem no_unbalanced_on_trees_Full_false : ¬ no_unbalanced_on_trees_Full := by
+  intro h
+  obtain ⟨i, hi⟩ := no_unbalanced_on_trees_counterexample
+  exact h _ _ _ i hi
+
+/-- (T) On trees that fit in memory (the physical hypothesis of the other theorems) the enforcer never
+reports an unbalanced structure, under either policy. -/
+theorem no_unbalanced_on_trees_partial (lim : Limits) (pd : Bool) (ds : List Node) (i : Nat)
+    (hlen : (flattenStream ds).length < 2 ^ 64) :
     run lim pd (flattenStream ds) ≠ .error (i, .unbalanced) := by
-  sorry
+  intro h
+  have := unbalanced_wfAll_false (e := Enf.new lim pd) rfl (by simpa [Enf.new] using hlen) h
+  have hw : wfAll pd [] (flattenStream ds) = true := congrArg (·.2.2) (G_stream pd ds)
+  simp only [Enf.new] at this
+  rw [hw] at this; cases this
+
+/-- (T) The same without any bound on the input, for every configuration whose depth limit is below
+`usize::MAX` (the breach `depth` fires before the counter can saturate). -/
+theorem no_unbalanced_on_trees_partial_maxDepth (lim : Limits) (pd : Bool) (ds : List Node) (i : Nat)
+    (hlim : lim.maxDepth < USIZE_MAX) :
+    run lim pd (flattenStream ds) ≠ .error (i, .unbalanced) := by
+  intro h
+  have := unbalanced_wfAll_false' (e := Enf.new lim pd) hlim (depthInv_new lim pd) h
+  have hw : wfAll pd [] (flattenStream ds) = true := congrArg (·.2.2) (G_stream pd ds)
+  simp only [Enf.new] at this
+  rw [hw] at this; cases this
 
 /-- (T) report_eq_counts: when the stream is accepted, the report handed to the callback equals the
 independent count — including merge keys, which the enforcer tracks with its container-state stack
@@ -22,13 +60,79 @@ theorem report_eq_usage (lim : Limits) (ds : List Node) (e : Enf)
     (hlen : (flattenStream ds).length < 2 ^ 64)
     (h : run lim false (flattenStream ds) = .ok e) :
     e.finalize.1 = usage ds := by
-  sorry
+  obtain ⟨rfl, -⟩ := runFrom_ok h
+  obtain ⟨-, hmd⟩ := fresh_depth lim (flattenStream ds) hlen
+  have hmk : mkAll false [] (flattenStream ds) = mergeKeysDocs ds := congrArg (·.2.1) (G_stream false ds)
+  rw [finalize_fst]
+  simp only [usage, nEvents]
+  rw [fresh_events, fresh_aliases, fresh_anchors, fresh_documents, fresh_nodes, fresh_tsb, fresh_mergeKeys, hmd, hmk]
 
 /-- (T) observe_accepts_iff: the stream is accepted by `observe` ⇔ every counted quantity is within its
 limit.  (Counters are monotone, so "every prefix" and "the whole stream" coincide.) -/
 theorem accepts_iff (lim : Limits) (ds : List Node) (hlen : (flattenStream ds).length < 2 ^ 64) :
     (∃ e, run lim false (flattenStream ds) = .ok e) ↔ within lim (usage ds) = true := by
-  sorry
+  have hmk : mkAll false [] (flattenStream ds) = mergeKeysDocs ds := congrArg (·.2.1) (G_stream false ds)
+  constructor
+  · rintro ⟨e, h⟩
+    have hu := report_eq_usage lim ds e hlen h
+    obtain ⟨rfl, hw⟩ := runFrom_ok h
+    have hw := hw (within_new lim false)
+    rw [← hu, finalize_fst]
+    simp only [Within, fresh_lim] at hw
+    rw [within_iff]
+    dsimp only
+    omega
+  · intro hwi
+    cases h : run lim false (flattenStream ds) with
+    | ok e => exact ⟨e, rfl⟩
+    | error p =>
+      exfalso
+      obtain ⟨j, b⟩ := p
+      have hnu := no_unbalanced_on_trees_partial lim false ds j hlen
+      unfold run at h
+      obtain ⟨pre, ev, post, heq, -, -, herr⟩ := runFrom_err h
+      have hb := observe_err herr
+      rw [within_iff] at hwi
+      simp only [usage, nEvents, maxDepth] at hwi
+      rw [← hmk, heq] at hwi
+      rw [heq] at hlen
+      simp only [List.length_append, List.length_cons] at hlen hwi
+      have hlen' : pre.length < 2 ^ 64 := by omega
+      cases b <;> simp only [BreachSpec, fresh_lim] at hb
+      case events n => rw [fresh_events] at hb; omega
+      case nodes n =>
+        rw [fresh_nodes] at hb
+        rw [nNodes_append, nNodes_cons, hb.1] at hwi; simp only [b2n, if_true] at hwi; omega
+      case aliases n =>
+        rw [fresh_aliases] at hb
+        rw [nAliases_append, nAliases_cons, hb.1] at hwi; simp only [b2n, if_true] at hwi; omega
+      case documents n =>
+        rw [fresh_documents] at hb
+        rw [nDocuments_append, nDocuments_cons, hb.1] at hwi; simp only [b2n, if_true] at hwi; omega
+      case anchors n =>
+        rw [fresh_defined] at hb
+        have h1 : nAnchors (pre ++ ev :: post) = (defAfter (defIns (defAfter [] pre) (anchorOf ev)) post).length := by
+          rw [nAnchors_eq, defAfter_append]; rfl
+        have h2 := defAfter_length_ge (defIns (defAfter [] pre) (anchorOf ev)) post
+        omega
+      case scalarBytes n =>
+        rw [fresh_tsb, satAdd_eq_min] at hb
+        rw [scalarBytes_append, scalarBytes_cons] at hwi; omega
+      case depth n =>
+        obtain ⟨hd, hm⟩ := fresh_depth lim pre hlen'
+        have hle := depthAfter_le 0 pre
+        rw [hd, hm, satAdd_one (by omega)] at hb
+        have hge := maxDepthFrom_ge (depthStep (depthAfter 0 pre) ev)
+          (max (maxDepthFrom 0 0 pre) (depthStep (depthAfter 0 pre) ev)) post
+        rw [maxDepthFrom_append] at hwi
+        simp only [maxDepthFrom] at hwi
+        rw [depthStep_eq, hb.1] at hge hwi
+        simp only [if_true, maxDepth] at hge hwi hb
+        omega
+      case mergeKeys n =>
+        rw [fresh_mergeKeys, fresh_containers] at hb
+        rw [mkAll_append] at hwi; simp only [mkAll] at hwi; omega
+      case unbalanced => exact hnu h
 
 /-- (T) the ratio heuristic applied by `finalize` is the mathematical one (the product saturates
 instead of overflowing, which cannot change the comparison). -/
@@ -37,7 +141,23 @@ theorem ratio_exact (lim : Limits) (ds : List Node) (e : Enf)
     (h : run lim false (flattenStream ds) = .ok e) :
     (e.finalize.2 = none ↔ ratioOk lim (usage ds) = true) ∧
     (∀ b, e.finalize.2 = some b → b = .ratio (usage ds).aliases (usage ds).anchors) := by
-  sorry
+  have hu := report_eq_usage lim ds e hlen h
+  have hl : e.lim = lim := by
+    obtain ⟨rfl, -⟩ := runFrom_ok h; exact fresh_lim _ _
+  have ha : (usage ds).aliases ≤ USIZE_MAX := by
+    have := nAliases_le_length (flattenStream ds)
+    simp only [usage, USIZE_MAX]; omega
+  have hs := finalize_snd e
+  rw [hu, hl] at hs
+  rw [hs]
+  have hdec : decide ((usage ds).aliases > satMul lim.multiplier (usage ds).anchors) =
+      decide ((usage ds).aliases > lim.multiplier * (usage ds).anchors) :=
+    decide_eq_decide.mpr (gt_satMul lim.multiplier (usage ds).anchors ha)
+  rw [hdec]
+  simp only [ratioOk]
+  generalize (lim.enforceRatio && decide ((usage ds).aliases ≥ lim.minAliases) &&
+    ((usage ds).anchors == 0 || decide ((usage ds).aliases > lim.multiplier * (usage ds).anchors))) = c
+  cases c <;> simp
 
 /-- limits set exactly to the measured usage -/
 def limitsOf (r : Report) (lim : Limits) : Limits :=
@@ -48,13 +168,18 @@ def limitsOf (r : Report) (lim : Limits) : Limits :=
 /-- (T) threshold_exact, upper half: limit = measured usage accepts -/
 theorem exact_limits_accept (lim : Limits) (ds : List Node) (hlen : (flattenStream ds).length < 2 ^ 64) :
     ∃ e, run (limitsOf (usage ds) lim) false (flattenStream ds) = .ok e := by
-  sorry
+  rw [accepts_iff _ ds hlen, within_iff]
+  simp [limitsOf]
 
 /-- (T) threshold_exact, lower half: any limit below the measured usage rejects -/
 theorem below_usage_rejects (lim : Limits) (ds : List Node) (hlen : (flattenStream ds).length < 2 ^ 64)
     (h : within lim (usage ds) = false) :
     ∃ i b, run lim false (flattenStream ds) = .error (i, b) := by
-  sorry
+  cases hr : run lim false (flattenStream ds) with
+  | ok e =>
+    have := (accepts_iff lim ds hlen).1 ⟨e, hr⟩
+    rw [h] at this; cases this
+  | error p => exact ⟨p.1, p.2, rfl⟩
 
 /-- (T) first_breach_kind: the breach names a counter, carries that counter's value after the offending
 event, and that value exceeds the limit; everything before was within the limits. -/
@@ -72,7 +197,33 @@ theorem first_breach_kind (lim : Limits) (evs : List Raw) (i : Nat) (b : Breach)
     | .mergeKeys n => n > lim.maxMergeKeys
     | .ratio _ _ => False
     | .unbalanced => True := by
-  sorry
+  unfold run at h ⊢
+  obtain ⟨pre, ev, post, rfl, rfl, hok, herr⟩ := runFrom_err h
+  have hb := observe_err herr
+  have ht : (pre ++ ev :: post).take (0 + pre.length) = pre := by simp
+  have ht1 : (pre ++ ev :: post).take (0 + pre.length + 1) = pre ++ [ev] := by
+    rw [show pre ++ ev :: post = (pre ++ [ev]) ++ post by simp]; exact List.take_left' (by simp)
+  refine ⟨⟨_, by rw [ht]; exact hok⟩, by simp, ?_⟩
+  rw [ht1]
+  cases b <;> simp only [BreachSpec, fresh_lim] at hb ⊢
+  case events n => rw [fresh_events] at hb; omega
+  case nodes n =>
+    rw [fresh_nodes] at hb
+    rw [nNodes_append, nNodes_cons, nNodes_nil, hb.1]; simp only [b2n, if_true]; omega
+  case aliases n =>
+    rw [fresh_aliases] at hb
+    rw [nAliases_append, nAliases_cons, nAliases_nil, hb.1]; simp only [b2n, if_true]; omega
+  case documents n =>
+    rw [fresh_documents] at hb
+    rw [nDocuments_append, nDocuments_cons, nDocuments_nil, hb.1]; simp only [b2n, if_true]; omega
+  case anchors n =>
+    rw [fresh_defined] at hb
+    rw [nAnchors_eq, defAfter_append]; exact hb
+  case scalarBytes n =>
+    rw [fresh_tsb, satAdd_eq_min] at hb
+    rw [scalarBytes_append, scalarBytes_cons, scalarBytes_nil]; omega
+  case depth n => exact hb.2.2
+  case mergeKeys n => exact hb.2.2
 
 /-- a stream under the per-document policy -/
 def perDocAccepts (lim : Limits) (ds : List Node) : Bool :=
@@ -85,13 +236,34 @@ its documents is accepted as a stream of its own — the documents already read 
 (True of the repaired code: anchors, depth and container state are reset at every DocumentStart.) -/
 theorem perdoc_independent (lim : Limits) (ds : List Node) (hne : ds ≠ []) :
     perDocAccepts lim ds = ds.all (fun d => perDocAccepts lim [d]) := by
-  sorry
+  have hacc : ∀ ds, perDocAccepts lim ds = acc (run lim true (flattenStream ds)) := fun ds => by
+    unfold perDocAccepts acc; rfl
+  have hsingle : ∀ d, perDocAccepts lim [d] = docOk lim d := fun d => by
+    rw [hacc, perDoc_eq]
+    simp only [List.all_cons, List.all_nil, Bool.and_true]
+    cases hd : docOk lim d
+    · simp
+    · have := docOk_events hd
+      simp; omega
+  simp only [hsingle]
+  rw [hacc, perDoc_eq]
+  cases ds with
+  | nil => exact absurd rfl hne
+  | cons d ds =>
+    simp only [List.all_cons]
+    cases hd : docOk lim d
+    · simp
+    · have := docOk_events hd
+      have h1 : decide (1 ≤ lim.maxEvents) = true := by simp; omega
+      have h2 : decide (2 ≤ lim.maxEvents) = true := by simp; omega
+      simp [h1, h2]
 
 /-- (T) the per-document enforcer state right after a DocumentStart does not depend on the history -/
 theorem perdoc_state_reset (e e' : Enf) (x : Bool) (hpd : e.perDocument = true)
     (h : e.observe (.docStart x) = .ok e') :
     e'.report = { documents := e.report.documents } ∧ e'.defined = [] ∧ e'.depth = 0 ∧ e'.containers = [] := by
-  sorry
+  obtain ⟨rfl, -⟩ := observe_ok h
+  simp [next, hpd, isDocStart]
 
 -- (E) non-vacuity and concrete thresholds
 def demoLim : Limits :=
@@ -108,5 +280,18 @@ example : ∃ e, run demoLim false (flattenStream [demoDoc]) = .ok e := ⟨_, rf
 example : run { demoLim with maxDepth := 1 } false (flattenStream [demoDoc]) = .error (6, .depth 2) := by rfl
 example : run { demoLim with maxMergeKeys := 0 } false (flattenStream [demoDoc]) = .error (3, .mergeKeys 1) := by rfl
 example : perDocAccepts { demoLim with maxAnchors := 1 } [demoDoc, demoDoc, demoDoc] = true := by decide
+
+#print axioms no_unbalanced_on_trees_counterexample
+#print axioms no_unbalanced_on_trees_Full_false
+#print axioms no_unbalanced_on_trees_partial
+#print axioms no_unbalanced_on_trees_partial_maxDepth
+#print axioms report_eq_usage
+#print axioms accepts_iff
+#print axioms ratio_exact
+#print axioms exact_limits_accept
+#print axioms below_usage_rejects
+#print axioms first_breach_kind
+#print axioms perdoc_independent
+#print axioms perdoc_state_reset
 
 end SaphyrVerif.Props.C07
